@@ -13,6 +13,7 @@ Ok/Err edge, inner.call, ResponseFuture::future, ResponseFuture::invalid_auth} m
 returns the inner future's poll unchanged or Ready(Ok(the stored response)), the allow-list decision
 table is {no sender ↦ InternalServerError, contains ↦ Ok, else ↦ NotFound} over a set collected from
 the whole constructor argument, and the layer hands the service its own authorizer clone.
+One layer out: clones keep the same authorizer / list, poll_ready only delegates, PeerId equality/hash are derived.
 """
 TRUSTED = ["std HashSet::contains / FromIterator", "anemo Request::peer_id returns the authenticated sender extension (C01)"]
 NOT_DECIDED = ["the logic of user-supplied authorizers"]
